@@ -96,7 +96,7 @@ def _names(view, fid):
 
 
 def shards(tier, seed):
-    n = 200 if tier == 'quick' else 9500
+    n = 200 if tier == 'quick' else 20000
     return [{'n': n} for _ in range(16)]
 
 
